@@ -53,22 +53,43 @@ def gen_conc_op(g, model, tag, unique, lo, hi, sess):
 @world('c09')
 def c09(tapes, params):
     # C09 is about tag storage seen by several threads: the storage accessors get most of the focused runs
-    params.setdefault('focus_weights', {'__setitem__': 14, '__getitem__': 10, 'produce': 4})
+    params.setdefault('focus_weights', {'__setitem__': 14, '__getitem__': 10, 'produce': 2, 'TYPE.produce': 14, 'REAL.produce': 3, 'LREAL.produce': 3})
+    rw = bool(params.get('rw'))
+    if rw:
+        # readers against writers of one whole tag: half of the sessions only read the whole hot tag,
+        # the others only write all of it (unique values); pre-emption confined to the storage
+        # accessors and the element encoders, i.e. to the path between "executed" and "reply encoded"
+        params['focus_weights'] = {'__setitem__': 10, '__getitem__': 10, 'TYPE.produce': 14, 'REAL.produce': 4, 'LREAL.produce': 4,
+                                   'Attribute.produce': 6, 'request': 4, 'reply_elements': 3}
+        params.setdefault('budget', 488)
+        params.setdefault('max_sessions', 3)
+        params.setdefault('force_one', True)
     storm = bool(params.get('storm'))
     if storm:
         # bundle storm: every session sends Multiple Service Packets at the same time, pre-emption is
         # confined to the deferred parsing of bundle members (which re-enters the shared Object parser),
         # and a thread that releases a shared lock is often held back right there
         params.setdefault('focus_fn', 'state_multiple_service.terminate')
+    cold = bool(params.get('cold'))
+    if cold:
+        # cold start: the sessions' very first requests meet the simulator's lazy set-up (objects and
+        # tags are created by whichever request comes first); no barrier, pre-emption confined to it
+        params.setdefault('focus_fn', 'setup_tag')
     w = EnipWorld(tapes, params, preempt=True)
+    if cold:
+        w.sched.preempt_left = max(w.sched.preempt_left, 2) + w.sch.draw(7, 'coldpb')
+        w.sched.preempt_gap = w.sch.choice([2, 4, 8, 16], 'coldgap')
+        w.sched.hold_choices = (1, 2, 4, 8, 30)
+        w.sched.unlock_hold = (1, 3)
     if storm:
         w.sched.unlock_hold = (1, 3)
         w.sched.preempt_left = max(w.sched.preempt_left, 2)
     g = w.gen
-    nsess = g.weighted([(1, 2), (3, 3), (3, 4), (2, params.get('max_sessions', 5))], 'nsess')
+    nsess = g.weighted([(1, 2), (3, 3), (3, 4), (2, params.get('max_sessions', 5))], 'nsess') if not rw else g.between(2, 3, 'nsessrw')
     # few short tags so that histories stay checkable and ranges overlap
     params.setdefault('budget', g.choice([488, 488, 16, 40], 'budget'))
-    w.gen_tags(ntags=g.between(1, 3, 'ntags'), types=WIDE, maxlen=params.get('maxlen', 8))
+    w.gen_tags(ntags=g.between(1, 3, 'ntags') if not cold else g.between(3, 12, 'ntagsc'), types=WIDE, maxlen=params.get('maxlen', 8),
+               shared=not cold)
     for t in w.model.tags.values():
         pass
     w.start_server()
@@ -94,9 +115,13 @@ def c09(tapes, params):
             r = s.forward_open(large=bool(g.draw(2, 'lg')))
             s.connected = r is not None and r.status == 0
         ready['n'] += 1
-        w.sched.block(Waiter(cond=lambda: ready['n'] >= nsess, why='barrier'))
-        if i == 0:
+        if cold:
+            # a Register reply means the set-up has completed (it runs under its lock before the first reply)
             w.bind_auto_tags()
+        else:
+            w.sched.block(Waiter(cond=lambda: ready['n'] >= nsess, why='barrier'))
+            if i == 0:
+                w.bind_auto_tags()
         nops = g.between(3, params.get('max_ops', 9), 'nops')
         for _ in range(nops):
             # most requests go to one hot tag, so that multi-element reads and writes of different
@@ -109,7 +134,9 @@ def c09(tapes, params):
             else:
                 lo, hi = 0, L
                 stats['overlap_ops'] += 1
-            bundle = g.chance(3 if storm else 1, 4, 'bundle?') and not s.connected
+            if rw:
+                tag, lo, hi = hot[0], 0, hot[0].length
+            bundle = g.chance(3 if storm else 1, 4, 'bundle?') and not s.connected and not rw
             if bundle:
                 ops = [gen_conc_op(g, w.model, g.choice(tags, 'btag'), unique, 0, 1, i) for _ in range(g.between(2, 4, 'nb'))]
                 ops = [dict(o) for o in ops]
@@ -120,6 +147,20 @@ def c09(tapes, params):
                 stats['bundles'] += 1
             else:
                 ops = [gen_conc_op(g, w.model, tag, unique, lo, hi, i)]
+                if rw:
+                    o = ops[0]
+                    want_read = (i % 2 == 0)
+                    if o['kind'] in ('gas', 'sas'):
+                        ok = (o['kind'] == 'gas') == want_read
+                    else:
+                        ok = (o['kind'] in ('read', 'readfrag')) == want_read
+                    if not ok or ('index' in o and (o['index'], o['elements']) != (0, tag.length)):
+                        # whole-tag read or whole-tag write, by the session's role
+                        o = {'kind': 'read' if want_read else 'write', 'ref': ('name', tag.name), 'index': 0, 'elements': tag.length}
+                        if not want_read:
+                            o['tname'] = tag.tname
+                            o['values'] = [gen_fit(g, tag.tname, tag.tname, unique, True) for _ in range(tag.length)]
+                        ops = [o]
                 cip = op_request(ops[0])
             ctx = s.context()
             if s.connected:
